@@ -103,7 +103,7 @@ func e2eSend(name string, id, seq string, status int64) (modified bool) {
 	k.Add("url", "h.com/x")
 	k.Add("path", "/x")
 	k.Add("query", "")
-	k.Add("headers", "host: h.com")
+	k.Add("headers", "host: h.com\r\n\r\n") // the proxy's req.hdrs dump: CRLF-terminated lines and the closing empty line
 	k.Add("body", []byte(""))
 	if name == "lunar-on-response" {
 		k.Add("status", status)
